@@ -171,6 +171,13 @@ public:
                     if (pn == nullptr) {
                         //ti->store_root_ptr(nullptr);
                         // remain empty deleted root node.
+                        // It is the only border of this layer now. A sibling
+                        // which was emptied concurrently may have skipped
+                        // this node at its unlink, so that prev / next still
+                        // refer to retired nodes: a later insert revives
+                        // this node with these links.
+                        set_prev(nullptr);
+                        set_next(nullptr);
                         ti->root_unlock();
                         version_unlock();
                         return;
